@@ -673,6 +673,34 @@ func ruleC03Glob(c *Checker) {
 		}
 		eqT, _ := condEdges(comp, func(v ssa.Value) bool { return isPeekTest(v, true) })
 		neT, _ := condEdges(comp, func(v ssa.Value) bool { return isPeekTest(v, false) })
+		// the same tests written the other way round: Peek() != <char> (false edge), Peek() == EOF (false edge)
+		isPeekTestInv := func(v ssa.Value, wantNeChar bool) bool {
+			bo, ok := v.(*ssa.BinOp)
+			if !ok {
+				return false
+			}
+			fromPeek := false
+			for w := range p.backSlice(bo.X, 0) {
+				if pc, ok := w.(*ssa.Call); ok && isMethod(calleeObj(pc), "text/scanner", "Scanner", "Peek") {
+					fromPeek = true
+				}
+			}
+			if !fromPeek {
+				return false
+			}
+			isEOF := false
+			if k, isC := constInt(bo.Y); isC && k == -1 {
+				isEOF = true
+			}
+			if wantNeChar {
+				return bo.Op == token.NEQ && !isEOF
+			}
+			return bo.Op == token.EQL && isEOF
+		}
+		_, neCharF := condEdges(comp, func(v ssa.Value) bool { return isPeekTestInv(v, true) })
+		_, eqEOFF := condEdges(comp, func(v ssa.Value) bool { return isPeekTestInv(v, false) })
+		eqT = append(eqT, neCharF...)
+		neT = append(neT, eqEOFF...)
 		// the test must look at the character this call consumes: it comes after every earlier Next()
 		var valid []Edge
 		for _, g := range append(eqT, neT...) {
